@@ -24,24 +24,24 @@ theorem countLF_take_le (s : List Nat) (k : Nat) : countLF (s.take k) ≤ countL
   have := countLF_take_drop s k; omega
 
 /-- every diagnostic line lies between the line of the current position and the last line of the rest -/
-theorem loop_diag_bound (text : List Nat) : ∀ (fuel : Nat) (s : List Nat) (pos line n l : Nat) (m : Msg),
-    loop text fuel s pos line n = .diag l m → line ≤ l ∧ l ≤ line + countLF s := by
+theorem loop_diag_bound : ∀ (fuel : Nat) (s : List Nat) (line n l : Nat) (m : Msg),
+    loop fuel s line n = .diag l m → line ≤ l ∧ l ≤ line + countLF s := by
   intro fuel
   induction fuel with
-  | zero => intro s pos line n l m h; simp [loop] at h
+  | zero => intro s line n l m h; simp [loop] at h
   | succ f ih =>
-    intro s pos line n l m h
+    intro s line n l m h
     cases s with
     | nil => simp [loop] at h
     | cons c t =>
       simp only [loop] at h
       split at h
       · rename_i k _
-        have := ih _ _ _ _ _ _ h
+        have := ih _ _ _ _ _ h
         have e := countLF_take_drop (c :: t) k
         omega
       · rename_i k _
-        have := ih _ _ _ _ _ _ h
+        have := ih _ _ _ _ _ h
         have e := countLF_take_drop (c :: t) k
         omega
       · rename_i off mm _
@@ -147,13 +147,13 @@ theorem step_progress (c : Nat) (t : List Nat) : (step (c :: t)).Progress := by
     | exact stepStr_progress _ _
     | (simp only [Step.Progress]; omega)
 
-theorem loop_no_fuel (text : List Nat) : ∀ (fuel : Nat) (s : List Nat) (pos line n : Nat),
-    s.length < fuel → loop text fuel s pos line n ≠ .fuel := by
+theorem loop_no_fuel : ∀ (fuel : Nat) (s : List Nat) (line n : Nat),
+    s.length < fuel → loop fuel s line n ≠ .fuel := by
   intro fuel
   induction fuel with
-  | zero => intro s pos line n h; omega
+  | zero => intro s line n h; omega
   | succ f ih =>
-    intro s pos line n h
+    intro s line n h
     cases s with
     | nil => simp [loop]
     | cons c t =>
@@ -210,20 +210,20 @@ theorem getLast?_cons_ne {x : Nat} {l : List Nat} (h : l ≠ []) : (x :: l).getL
   | cons y t => simp [List.getLast?_cons_cons]
 
 /-- the scanner proper has no over-read outcome (repaired code): only the passes before it can produce one -/
-theorem loop_no_overread (text : List Nat) : ∀ (fuel : Nat) (s : List Nat) (pos line n : Nat) (w : Why),
-    loop text fuel s pos line n ≠ .overread w := by
+theorem loop_no_overread : ∀ (fuel : Nat) (s : List Nat) (line n : Nat) (w : Why),
+    loop fuel s line n ≠ .overread w := by
   intro fuel
   induction fuel with
-  | zero => intro s pos line n w; simp [loop]
+  | zero => intro s line n w; simp [loop]
   | succ f ih =>
-    intro s pos line n w
+    intro s line n w
     cases s with
     | nil => simp [loop]
     | cons c t =>
       simp only [loop]
       split
-      · exact ih _ _ _ _ _
-      · exact ih _ _ _ _ _
+      · exact ih _ _ _ _
+      · exact ih _ _ _ _
       · simp
 
 theorem getLast?_drop_of_ne {l : List Nat} {k : Nat} (h : l.drop k ≠ []) : (l.drop k).getLast? = l.getLast? := by
